@@ -7,6 +7,7 @@ CONSTANTS
   Chunk = 6
   BodySizes = {1, 2}
   RootSizes = {2, 3}
+  ScrubLen = 4
   MaxCommits = 3
   MaxAppends = 1
   MaxCrashes = 1
